@@ -126,6 +126,7 @@ def group_small(fams):
 
 def plan(prop, tier):
     """list of (name, cfg, rand_cfg) for this property"""
+    q = tier == "quick"
     F = seq_families(tier)
     if prop in GENERIC:
         fams = group_small([(n, c, r) for n, (c, r) in F.items()])
@@ -175,7 +176,24 @@ def plan(prop, tier):
             fams.append(("share2_lateup", scen.with_bounds(g, "share", sinks=["probe", "probe"], **lb), None))
         return fams
     if prop == "C07":
-        return [(n, c, r) for n, (c, r) in F.items() if c["fam"] in ("map", "filter", "scan", "take", "skip")]
+        fams = [(n, c, r) for n, (c, r) in F.items() if c["fam"] in ("map", "filter", "scan", "take", "skip")
+                and not n.startswith("compo_")]
+        # chains of unary operators (the composition of the list functions)
+        P = scen.puppet
+        chains = {
+            "chain_map_filter_take": [P(1, 1), {"id": 2, "kind": "map", "f": "inc", "ups": [1]},
+                                      {"id": 3, "kind": "filter", "p": "even", "ups": [2]}, {"id": 4, "kind": "take", "n": 2, "ups": [3]}],
+            "chain_skip_scan": [P(1, 1), {"id": 2, "kind": "skip", "n": 1, "ups": [1]},
+                                {"id": 3, "kind": "scan", "r": "lin", "seed": 5, "ups": [2]}],
+            "chain_take_take": [P(1, 1), {"id": 2, "kind": "take", "n": 2, "ups": [1]}, {"id": 3, "kind": "take", "n": 1, "ups": [2]}],
+            "chain_filter_skip_map": [P(1, 1), {"id": 2, "kind": "filter", "p": "odd", "ups": [1]},
+                                      {"id": 3, "kind": "skip", "n": 1, "ups": [2]}, {"id": 4, "kind": "map", "f": "dbl", "ups": [3]}],
+        }
+        cb = dict(maxData=3, maxTop=3 if q else 4, maxPull=2, allowFail=True)
+        fams.append(("chains", [scen.with_bounds({"nodes": nd, "root": len(nd)}, nd[-1]["kind"], **cb) for nd in chains.values()],
+                     [scen.with_bounds({"nodes": nd, "root": len(nd)}, nd[-1]["kind"], maxData=5, maxTop=7, maxPull=4,
+                                       allowFail=True, sinkErr=True) for nd in chains.values()]))
+        return fams
     own = {"C08": "merge", "C09": "concat", "C10": "combine", "C11": "flatten", "C12": "share"}
     if prop in own:
         fams = [(n, c, r) for n, (c, r) in F.items() if c["fam"] == own[prop] and not n.endswith("_serr")]
@@ -218,6 +236,20 @@ def plan(prop, tier):
                                                      maxTop=3 if q else 4, maxPull=3, allowFail=False, c14=True), None))
         fams.append(("flatten2_pull", scen.with_bounds(scen.flatten_g(2, "pull", "pull"), "flatten", maxData=2,
                                                       maxTop=4, maxPull=3, allowFail=q is False, c14=True), None))
+        # compositions (the property is closed under composition: pullable in, pullable out)
+        P = scen.puppet
+        comp = [
+            [P(1, 1, "pull"), {"id": 2, "kind": "filter", "p": "odd", "ups": [1]}, {"id": 3, "kind": "take", "n": 2, "ups": [2]}],
+            [P(1, 1, "pull"), {"id": 2, "kind": "map", "f": "inc", "ups": [1]}, {"id": 3, "kind": "skip", "n": 1, "ups": [2]}],
+            [P(1, 1, "pull"), P(2, 2, "pull"), {"id": 3, "kind": "filter", "p": "even", "ups": [1]},
+             {"id": 4, "kind": "concat", "ups": [3, 2]}],
+            [P(1, 1, "pull"), P(2, 2, "pull"), {"id": 3, "kind": "concat", "ups": [1, 2]},
+             {"id": 4, "kind": "filter", "p": "odd", "ups": [3]}],
+        ]
+        # (not concat! over a take output: take answers the Pull for its n-th item with the Data AND its end,
+        # which is outside the premise "exactly one Data or the end per Pull" for concat!'s members)
+        fams.append(("c14_compo", [scen.with_bounds({"nodes": nd, "root": len(nd)}, nd[-1]["kind"], maxData=2, maxTop=4,
+                                                    maxPull=3, allowFail=False, c14=True) for nd in comp], None))
         fams.append(("fromiter_c14", [scen.with_bounds(from_iter_g(xs), "from_iter", maxTop=4, maxPull=4, c14=True)
                                       for xs in ([], [1], [1, 2], None)], None))
         return fams
